@@ -119,6 +119,16 @@ def playback(name, target_dir, timeout, harness=None):
 
 
 def run(names, tier, seed, work, jobs, harness=None, repo='/repo'):
+    # concurrent check processes share the compiled target directories of one work directory: one Kani stage at a time
+    import fcntl
+    os.makedirs(work, exist_ok=True)
+    with open(os.path.join(work, 'kani.lock'), 'w') as lk:
+        fcntl.flock(lk, fcntl.LOCK_EX)
+        try: return _run(names, tier, seed, work, jobs, harness, repo)
+        finally: fcntl.flock(lk, fcntl.LOCK_UN)
+
+
+def _run(names, tier, seed, work, jobs, harness=None, repo='/repo'):
     harness = harness or HARNESS
     """-> {obligation: result dict in the format of the Engine B results}"""
     results = {}
